@@ -24,7 +24,7 @@ from pathlib import Path
 from .. import common
 
 PROP = "C15"
-MODULES = ["XpmVerif.Properties.C15"]
+MODULES = ["XpmVerif.Properties.C15", "XpmVerif.Properties.C15Mro", "XpmVerif.Properties.C15Src", "XpmVerif.Properties.C15X"]
 BASE = 1000  # class id of `Config` itself (every configuration is an instance)
 
 # ---------------------------------------------------------------------------
@@ -48,7 +48,17 @@ common.load_findings = _load_findings
 
 
 def prove(ctx):
-    common.check_proofs(ctx, MODULES)
+    """regenerate Generated/ValidateSrc.lean from the tree under test (translate/typesrc.py), then build + audit; the source
+    obligations are the theorems of Properties/C15Src.lean"""
+    from ..translate import typesrc
+    ok, msg = typesrc.generate(common.REPO, common.LEAN, probe=lambda: probe_impl(ctx))
+    ctx.notes.append(f"translator typesrc: {msg}")
+    R, fallback = getattr(typesrc.generate, "last", ({}, []))
+    ctx.extra_cov["typesrc_translated_parts"] = 17 - len(fallback)
+    ctx.extra_cov["typesrc_fallback_parts"] = [n for n, _ in fallback]
+    if R:
+        ctx.extra_cov["switches_read_off_the_source"] = typesrc.switches(R)
+    common.check_proofs(ctx, MODULES, translate_msgs=[(ok, msg)])
 
 
 # ---------------------------------------------------------------------------
@@ -584,7 +594,7 @@ def has_union(t):
 
 INTS = [0, 1, -1, 2, 3, -7, 255, 2**53, 2**53 + 1, -(2**53) - 1, 10**30, -(10**30), 2**1023, 2**1024, 2**1024 - 2**970,
         2**1024 - 2**970 - 1, 2**70 + 2**17]
-FLOATS = [0.0, -0.0, 1.0, 2.0, -3.0, 2.5, -0.5, 1e300, 1e-300, 5e-324, 2.0**53, float(2**70), math.inf, -math.inf, math.nan,
+FLOATS = [0.0, -0.0, 1.0, 2.0, -3.0, 2.5, -0.5, -2.5, -1e-300, 1e300, 1e-300, 5e-324, 2.0**53, float(2**70), math.inf, -math.inf, math.nan,
           1.7976931348623157e308, 1e22, 123456789.0]
 STRS = ["", "a", "ab", "path", "$type", "x/y", "a//b/./c/", "/abs/p", "//net/x", "///t", "é", "中", "a b", ".", "..", "./r",
         "r/..", "/", "3", "2.5", "-1", "1e3", "nan", "inf", " 4 ", "True", "0"]
@@ -925,6 +935,11 @@ class PDir(Config):
     impl["resetOnFail"] = res == ["missing", "missing"]
     P.impl = impl
     ctx.extra_cov["source_variant"] = impl
+    tr = ctx.extra_cov.get("switches_read_off_the_source")
+    if tr is not None:
+        ctx.extra_cov["switches_probed_equal_translated"] = (tr == impl)
+        if tr != impl:
+            ctx.notes.append(f"switches read off the source {tr} differ from the probed ones {impl}: the correspondence runs with the probed ones")
     ctx.extra_cov["switch_hypotheses_met_by_the_probed_source"] = {
         "validate_sound / set_sound for every type (else only where no Union / no nested configuration class occurs)":
             not impl["unionDictNone"] and not impl["cfgNoneOk"],
@@ -975,6 +990,14 @@ def gen_set_cases(ctx, rng, ntypes):
             vals.append(("cross", vg.cross(), 0))
         if rng.random() < 0.3:
             vals.append(("none", NONE, 0))
+        if set(ty_kinds(t, [])) <= {"int", "str", "bool", "list", "opt", "enum"} and rng.random() < 0.9:
+            # Argument.checker: `Annotated[T, Choices([...])]` — some of the conforming candidates are among the choices, some not
+            ch = [v for k_, v, _ in vals[:1] if v["k"] != "none"] + [vg.conforming(inner)]
+            if arg["default"] is not None:
+                ch.append(arg["default"])   # the default goes through `set` when an object is created: a class whose default its own checker refuses cannot be instantiated
+            arg["choices"] = [c for c in ch if c["k"] != "none"]
+            if not arg["choices"]:
+                del arg["choices"]
         out.append((arg, vals))
     return out
 
@@ -988,7 +1011,15 @@ SPECIAL = [  # read-only arguments: generator, constant
 
 
 def arg_line(arg):
-    return {"ty": arg["ty"], "default": arg["default"] is not None, "generator": arg["generator"], "constant": arg["constant"]}
+    d = {"ty": arg["ty"], "default": arg["default"] is not None, "generator": arg["generator"], "constant": arg["constant"]}
+    if arg.get("choices"):
+        d["choices"] = arg["choices"]
+    return d
+
+
+def in_choices(arg, value, w):
+    """`Choices.check`: value == choice for some choice (python equality on the built values)"""
+    return any(value == build(c, w) for c in arg["choices"])
 
 
 def required(arg):
@@ -1013,18 +1044,24 @@ def run_set_cases(ctx, groups, with_model=True, source="generated"):
     impl = probe_impl(ctx)
     W0 = P.s_world()
     body = ["import json as _json", "from xv.props import c15 as _H", f"import {P.name}.lib as _L",
+            "from experimaestro.checkers import Choices as _Choices",
             "_W = _H.World({0: _L.E0, 1: _L.E1}, {0: _L.S0, 1: _L.S1, 2: _L.S2, 3: _L.S3}, dict(_H.S_MROS))"]
     for i, (arg, _) in enumerate(groups):
         ann = render_ty(arg["ty"], S_NAMES)
         dflt = ""
         if arg["default"] is not None:
             dflt = f" = _H.build(_json.loads({json.dumps(json.dumps(arg['default']))}), _W)"
-        body.append(f"\n\nclass C{i}(Config):\n    __xpmid__ = \"{P.name}.set{P.n + 1}.c{i}\"\n    x: Param[{ann}]{dflt}\n")
+        hint = f"Param[{ann}]"
+        if arg.get("choices"):
+            hint = f"Annotated[{ann}, _Choices([_H.build(_c, _W) for _c in _json.loads({json.dumps(json.dumps(arg['choices']))})])]"
+        body.append(f"\n\nclass C{i}(Config):\n    __xpmid__ = \"{P.name}.set{P.n + 1}.c{i}\"\n    x: {hint}{dflt}\n")
     # fourth entry point: the value is the DECLARED DEFAULT of the parameter (validated and coerced when the class is first
     # instantiated); the class is built inside a factory so that a rejected default raises at the call, like an assignment
     as_default = {}
     for i, (arg, vals) in enumerate(groups):
-        if arg["default"] is None and not ({"cfg", "any", "union"} & set(ty_kinds(arg["ty"], []))):
+        # (a declared default is validated by the type only — `addArgument` calls `argument.type.validate(default)`, not the
+        # checker: arguments with a checker are not exercised through that entry point)
+        if arg["default"] is None and not arg.get("choices") and not ({"cfg", "any", "union"} & set(ty_kinds(arg["ty"], []))):
             for j, (kind, vd, depth) in enumerate(vals):
                 if (i + j) % 4 == 0 and vd["k"] != "none" and kind != "none" and _clonable(vd):
                     ann = render_ty(arg["ty"], S_NAMES)
@@ -1092,7 +1129,16 @@ def one_set_case(ctx, cls, arg, kind, vd, depth, W0, impl, lines, impls, metas, 
         elif not ok_none and not equalish(t, sd, vdm, S_MROS):
             ctx.monitor_fail(f"stored-not-the-given-value:{'union' if has_union(t) else t['k']}",
                              f"Param[{tyname}] given {v!r} stores {stored!r}: not the given value up to the documented coercions", case)
-    if kind != "readonly" and not (vd["k"] == "none" and required(arg)) and coercible(t, vdm, S_MROS):
+    # (checkers are not part of the property's statement: no monitor of their own, the model comparison covers them)
+    refused = bool(arg.get("choices")) and out["r"] == "err" and vd["k"] != "none"
+    if refused:
+        # a conforming value outside the choices must be rejected: tell the checker's refusal from the type's by asking the type alone
+        try:
+            refused = not in_choices(arg, cls.__getxpmtype__().arguments["x"].type.validate(v), w)
+        except Exception:
+            refused = False
+    ctx.count("set_checker", "none" if not arg.get("choices") else ("refused" if refused else out["r"]))
+    if kind != "readonly" and not (vd["k"] == "none" and required(arg)) and coercible(t, vdm, S_MROS) and not refused:
         in_domain = union_domain(t)
         if not in_domain:
             ctx.count("conforming_outside_union_domain", out["r"])
@@ -1149,6 +1195,8 @@ def flush(ctx):
                 ctx.disagree(line, m, i, "declarable: model and implementation differ")
         elif kind == "history":
             compare_history(ctx, line, m, i, meta)
+        elif kind == "lib":
+            compare_lib(ctx, line, m, i, meta)
         else:
             compare_graph(ctx, line, m, i, meta)
 
@@ -1208,19 +1256,64 @@ def gen_lib(rng, hist=False):
     hist: for histories of submissions — more task classes, and tasks may be parameter values of later classes"""
     n = rng.choice([6, 7, 8] if hist else [5, 6, 7, 8])
     ntask = rng.choice([3, 4]) if hist else 2
+    # multiple inheritance (diamonds, two unrelated parents) with re-declared parameters: in about half of the libraries,
+    # which then get two more configuration classes
+    mi = rng.random() < 0.6
+    if mi:
+        n += 3
     classes = []
     for i in range(n):
         base = "Task" if i >= n - ntask else ("LightweightTask" if i == 1 else "Config")
         parent = None
+        parents = []
         same = [j for j, c in enumerate(classes) if c["base"] == base and base == "Config"]
-        if same and rng.random() < 0.2:
+        if same and rng.random() < (0.75 if mi else 0.2):
             parent = rng.choice(same)
+            parents = [parent]
+            if mi and len(same) >= 2 and rng.random() < 0.85:
+                # a second base: preferably one that shares an ancestor with the first (a diamond)
+                others = [j for j in same if j != parent and j not in classes[parent]["mro"] and parent not in classes[j]["mro"]]
+                dia = [j for j in others if set(classes[j]["mro"]) & set(classes[parent]["mro"]) - {BASE}]
+                pick = dia if dia and rng.random() < 0.7 else others
+                if pick:
+                    parents = [parent, rng.choice(pick)]
+                    if rng.random() < 0.5:
+                        parents.reverse()
+                    parent = parents[0]
         cfgs = [j for j, c in enumerate(classes) if c["base"] == "Config"]
         if hist:
             tk = [j for j, c in enumerate(classes) if c["base"] == "Task"]
             cfgs = cfgs + tk + tk  # tasks as parameter values, favoured
-        args = list(classes[parent]["args"]) if parent is not None else []
-        used = {a["name"] for a in args}
+        own = []
+        if parents:
+            # re-declarations of inherited parameters: another scalar type, Optional added/removed, default added/removed
+            inherited = lib_table(classes, c3_mro(None, parents, classes) or list(classes[parent]["mro"]), None)
+            for x, _, d in inherited:
+                inner = d["ty"]["t"] if d["ty"]["k"] == "opt" else d["ty"]
+                if d["generator"] or d["constant"] or inner["k"] not in ("int", "float", "str", "bool") or rng.random() >= (0.4 if mi else 0.0):
+                    continue
+                nd_ = {"name": x, "ty": inner, "meta": d["meta"], "default": None, "generator": False, "constant": False, "dkey": f"{x}@{i}"}
+                how = rng.choice(["type", "type", "opt", "default"])
+                # `ArgumentOptions.create` takes `getattr(cls, name, None)` as the default: a default declared by any ancestor is
+                # inherited as a class attribute, so a re-declaration below it always brings its own
+                inh_default = any(a["name"] == x and a["default"] is not None for q in classes for a in q["own"])
+                if inh_default:
+                    if how == "type":
+                        nd_["ty"] = T(rng.choice([k for k in ("int", "float", "str", "bool") if k != inner["k"]]))
+                    nd_["default"] = "conforming"
+                    own.append(nd_)
+                    continue
+                if how == "type":
+                    nd_["ty"] = T(rng.choice([k for k in ("int", "float", "str", "bool") if k != inner["k"]]))
+                    if d["ty"]["k"] == "opt" and rng.random() < 0.5:
+                        nd_["ty"] = T("opt", t=nd_["ty"])
+                elif how == "opt":
+                    if d["ty"]["k"] != "opt":
+                        nd_["ty"] = T("opt", t=inner)
+                elif d["default"] is None and d["ty"]["k"] != "opt":
+                    nd_["default"] = "conforming"
+                own.append(nd_)
+        args = []
         for a in range(rng.choice([2, 3, 4] if base == "Task" else [1, 2, 2, 3, 4])):
             name = f"a{i}_{a}"
             r = rng.random()
@@ -1257,17 +1350,117 @@ def gen_lib(rng, hist=False):
             elif f < 0.43 and not has_cfg:
                 arg.update(default="conforming", constant=True)
             args.append(arg)
+        own = own + args
         if hist and base == "Task" and rng.random() < 0.75:
             # a required parameter that the identifier ignores (Param[Path], Meta[...]): a missing one is not
             # caught by an accidental KeyError of the hash computation
             kind = rng.choice(["path", "meta-int", "meta-str"])
-            args.append({"name": f"a{i}_ign", "ty": T("path") if kind == "path" else T(kind[5:]), "meta": kind != "path",
-                         "default": None, "generator": False, "constant": False})
-        mro = [i] + (classes[parent]["mro"] if parent is not None else [BASE])
-        classes.append({"name": f"G{i}", "base": base, "parent": parent, "args": args, "mro": mro, "own": [a for a in args if a["name"] not in used],
-                        # the older public way of declaring parameters: class decorators @param / @option / @pathoption / @constant
-                        "deco": rng.random() < 0.3})
+            own.append({"name": f"a{i}_ign", "ty": T("path") if kind == "path" else T(kind[5:]), "meta": kind != "path",
+                        "default": None, "generator": False, "constant": False})
+        mro = c3_mro(i, parents, classes)
+        if mro is None:   # no consistent linearisation (Python refuses such a class statement): keep the first base only
+            parents = parents[:1]
+            mro = c3_mro(i, parents, classes)
+        cl = {"name": f"G{i}", "base": base, "parent": parent, "parents": parents, "mro": mro, "own": own}
+        if len(parents) > 1 and lib_owners(classes + [cl], i, "dfs") != lib_owners(classes + [cl], i, "mro"):
+            # the nested ChainMaps of the source (depth-first) and Python's MRO resolve some name differently (finding C15-N5):
+            # outside the domain of the generated graphs; such hierarchies are exercised by the table cases and the witness
+            cl["parents"] = parents = parents[:1]
+            cl["mro"] = c3_mro(i, parents, classes)
+        cl["args"] = [d for _, _, d in lib_table(classes + [cl], cl["mro"], None)]
+        # the older public way of declaring parameters: class decorators @param / @option / @pathoption / @constant
+        cl["deco"] = rng.random() < 0.3 and len(parents) <= 1 and not any("dkey" in a for a in own)
+        if rng.random() < 0.3:
+            # a user hook `__validate__`: raises ValueError when a scalar parameter has a given value, and (C17's idiom) may
+            # complete an unset optional parameter; inherited by the subclasses like any method
+            trig = [a for a in own if a["ty"]["k"] in ("int", "str") and not a["generator"] and not a["constant"]]
+            comp = [a for a in own if a["ty"] == T("opt", t=T("int")) and not a["generator"] and not a["constant"] and "dkey" not in a]
+            if trig:
+                a = rng.choice(trig)
+                cl["hook"] = {"name": a["name"], "v": D_int(7) if a["ty"]["k"] == "int" else D_str("hk")}
+                if comp and not hist and rng.random() < 0.5:
+                    cl["hook"]["complete"] = rng.choice(comp)["name"]
+        classes.append(cl)
     return classes
+
+
+def eff_hook(classes, i):
+    """the `__validate__` an instance of class i runs (the first one along the MRO) as (index of the parameter in the argument table of
+    class i, trigger value), or None"""
+    for c in classes[i]["mro"]:
+        if c != BASE and classes[c].get("hook"):
+            h = classes[c]["hook"]
+            ks = [k for k, a in enumerate(classes[i]["args"]) if a["name"] == h["name"]]
+            return (ks[0], h["v"]) if ks else None
+    return None
+
+
+def hook_lines(c):
+    h = c.get("hook")
+    if not h:
+        return []
+    out = ["    def __validate__(self):"]
+    if h.get("complete"):
+        out += [f"        if self.{h['complete']} is None:", f"            self.{h['complete']} = 3"]
+    v = h["v"]
+    lit = v["i"] if v["k"] == "int" else json.dumps(v["s"])
+    out += [f"        if self.{h['name']} == {lit}:", f"            raise ValueError(\"{c['name']}: {h['name']} is refused by the hook\")"]
+    return out
+
+
+def c3_mro(i, parents, classes):
+    """Python's C3 linearisation over class indices (`Config` itself = BASE last); i = None: the merge of the parents only"""
+    seqs = [[x for x in classes[p]["mro"] if x != BASE] for p in parents] + [list(parents)]
+    res = []
+    while any(seqs):
+        for sq in seqs:
+            if sq and not any(sq[0] in t[1:] for t in seqs):
+                h = sq[0]
+                break
+        else:
+            return None
+        res.append(h)
+        for t in seqs:
+            if t and t[0] == h:
+                del t[0]
+    return ([] if i is None else [i]) + res + [BASE]
+
+
+def cls_parents(c):
+    return c["parents"] if "parents" in c else ([c["parent"]] if c.get("parent") is not None else [])
+
+
+def lin_dfs(classes, i):
+    """the order in which a lookup in the nested ChainMaps of ObjectType.__initialize__ meets the classes"""
+    return [i] + [x for p in cls_parents(classes[i]) for x in lin_dfs(classes, p)]
+
+
+def lib_table(classes, lin, _):
+    """mirror of Model/ValidateMro.lean `argTable`: [(name, declaring class, declaration)], names at the place of their first
+    declaration walking the linearisation backwards, declaration = the first one along the linearisation"""
+    lin = [c for c in lin if c != BASE]
+    names = []
+    for c in reversed(lin):
+        for a in classes[c]["own"]:
+            if a["name"] not in names:
+                names.append(a["name"])
+    out = []
+    for x in names:
+        for c in lin:
+            d = [a for a in classes[c]["own"] if a["name"] == x]
+            if d:
+                out.append((x, c, d[0]))
+                break
+    return out
+
+
+def lib_owners(classes, i, lin):
+    L = lin_dfs(classes, i) if lin == "dfs" else classes[i]["mro"]
+    return sorted((x, c) for x, c, _ in lib_table(classes, L, None))
+
+
+def dkey(a):
+    return a.get("dkey", a["name"])
 
 
 def render_lib(P, tag, classes, defaults):
@@ -1276,7 +1469,7 @@ def render_lib(P, tag, classes, defaults):
     body = ["import json as _json", "from xv.props import c15 as _H", f"import {P.name}.lib as _L",
             "_W = _H.World({0: _L.E0, 1: _L.E1}, {}, {})"]
     for i, c in enumerate(classes):
-        par = classes[c["parent"]]["name"] if c["parent"] is not None else c["base"]
+        par = ", ".join(classes[q]["name"] for q in cls_parents(c)) or c["base"]
         if c.get("deco"):
             body.append("\n")
             for a in reversed(c["own"]):   # decorators apply bottom-up: the declaration order stays the one of `own`
@@ -1284,7 +1477,7 @@ def render_lib(P, tag, classes, defaults):
                 ann = render_ty(inner, names)
                 extra = ", required=False" if a["ty"]["k"] == "opt" else ""
                 if a["default"] is not None:
-                    dv = f"_H.build(_json.loads({json.dumps(json.dumps(defaults[a['name']]))}), _W)"
+                    dv = f"_H.build(_json.loads({json.dumps(json.dumps(defaults[dkey(a)]))}), _W)"
                 if a["generator"]:
                     body.append(f"@pathoption(\"{a['name']}\", \"{a['name']}.txt\")")
                 elif a["constant"]:
@@ -1296,6 +1489,7 @@ def render_lib(P, tag, classes, defaults):
             body.append(f"class {c['name']}({par}):\n    __xpmid__ = \"{P.name}.{tag}.g{i}\"")
             if c["base"] in ("Task", "LightweightTask"):
                 body.append("    def execute(self):\n        pass")
+            body.extend(hook_lines(c))
             continue
         body.append(f"\n\nclass {c['name']}({par}):\n    __xpmid__ = \"{P.name}.{tag}.g{i}\"")
         for a in c["own"]:
@@ -1306,12 +1500,13 @@ def render_lib(P, tag, classes, defaults):
             hint = "Constant" if a["constant"] else ("Meta" if a["meta"] else "Param")
             d = ""
             if a["default"] is not None:
-                d = f" = _H.build(_json.loads({json.dumps(json.dumps(defaults[a['name']]))}), _W)"
+                d = f" = _H.build(_json.loads({json.dumps(json.dumps(defaults[dkey(a)]))}), _W)"
             body.append(f"    {a['name']}: {hint}[{ann}]{d}")
         if not c["own"]:
             body.append("    pass")
         if c["base"] in ("Task", "LightweightTask"):
             body.append("    def execute(self):\n        pass")
+        body.extend(hook_lines(c))
     return "\n".join(body) + "\n"
 
 
@@ -1354,6 +1549,9 @@ def gen_graph(rng, classes, mros, complete=False, hist=False):
                 continue
             inner = a["ty"]["t"] if a["ty"]["k"] == "opt" else a["ty"]
             nd["vals"][k] = vg.conforming(inner, size=max(0, 3 - depth))
+            eh = eff_hook(classes, cc)
+            if eh and eh[0] == k and inner["k"] == eh[1]["k"] and rng.random() < 0.25:
+                nd["vals"][k] = dict(eh[1])   # the value the `__validate__` hook of this class refuses
             if nd["vals"][k]["k"] == "none":
                 nd["vals"][k] = None
         if lws and depth < 3 and rng.random() < 0.15:
@@ -1533,6 +1731,7 @@ def graph_line(impl, classes, g, mros):
                          for a in c["args"]] for c in classes],
             "nodes": [{"cls": nd["cls"], "vals": [None if v is None else with_mro(v, mros) for v in nd["vals"]], "pre": nd["pre"], "init": nd["init"]}
                       for nd in g["nodes"]],
+            "hooks": [[i, eh[0], eh[1]] for i in range(len(classes)) for eh in [eff_hook(classes, i)] if eh],
             "root": g["root"]}
 
 
@@ -1550,7 +1749,7 @@ def make_lib(ctx, rng, classes=None, defaults=None):
     classes = classes or gen_lib(rng)
     if defaults is None:
         vg = ValGen(rng, {}, lambda c: NONE, safe=True)
-        defaults = {a["name"]: vg.conforming(a["ty"]) for c in classes for a in c["own"] if a["default"] is not None}
+        defaults = {dkey(a): vg.conforming(a["ty"]) for c in classes for a in c["own"] if a["default"] is not None}
     tag = f"lib{P.n + 1}"
     _, M = P.module(render_lib(P, tag, classes, defaults))
     W, mros = lib_world(P, M, classes)
@@ -1563,7 +1762,7 @@ def classes_py(W):
 
 def run_graph_case(ctx, classes, defaults, W, mros, g, lines, impls, metas, with_submit=True, force_resubmit=None):
     impl = probe_impl(ctx)
-    case = {"op": "graph", "classes": [{k: c[k] for k in ("name", "base", "parent", "args", "mro")} for c in classes], "defaults": defaults,
+    case = {"op": "graph", "classes": [{k: c[k] for k in ("name", "base", "parent", "parents", "own", "args", "mro", "hook") if k in c} for c in classes], "defaults": defaults,
             "nodes": g["nodes"], "root": g["root"], "removed": g.get("removed", [])}
     reach_deep = reachable(g, classes, True)
     reach_top = reachable(g, classes, False)
@@ -1649,6 +1848,9 @@ def run_graph_case(ctx, classes, defaults, W, mros, g, lines, impls, metas, with
     ctx.count("graph_removal_depth", depth if g.get("removed") else "-")
     ctx.count("graph_missing", "none" if not miss_deep else ("direct" if miss_top else "container-only"))
     ctx.count("graph_cyclic", cyc)
+    hooked = [n for n in reach_deep if eff_hook(classes, g["nodes"][n]["cls"])]
+    trig = [n for n in hooked for eh in [eff_hook(classes, g["nodes"][n]["cls"])] if g["nodes"][n]["vals"][eh[0]] == eh[1]]
+    ctx.count("graph_hooks", "none" if not hooked else ("a reachable hook raises" if trig else "reachable hooks pass"))
     ctx.count("validate_outcome", v1)
 
 
@@ -1681,12 +1883,174 @@ def compare_graph(ctx, line, m, i, meta):
 def run_graphs(ctx, rng, nlibs, per_lib, with_model=True):
     for _ in range(nlibs):
         classes, defaults, W, mros = make_lib(ctx, rng)
+        check_tables(ctx, classes, defaults, W, with_model=with_model)
         lines, impls, metas = [], [], []
         for _ in range(per_lib):
             g = gen_graph(rng, classes, mros, complete=rng.random() < 0.2)
             run_graph_case(ctx, classes, defaults, W, mros, g, lines, impls, metas)
         if with_model:
             compare_graphs(ctx, lines, impls, metas)
+
+
+
+# ---------------------------------------------------------------------------
+# argument tables under (multiple) inheritance: Model/ValidateMro.lean
+
+
+def real_tables(classes, W):
+    """per class {name: (index of the class whose declaration `xpmtype.arguments[name]` is, required)} read off the real code,
+    and the real `__mro__` as class indices"""
+    xt = {i: W.classes[i].__getxpmtype__() for i in range(len(classes))}
+    idx = {W.classes[i]: i for i in range(len(classes))}
+    tabs, mros = [], []
+    for i in range(len(classes)):
+        t = {}
+        for name, arg in xt[i].arguments.items():
+            owner = [j for j in xt if xt[j] is getattr(arg, "objecttype", None)]
+            t[name] = (owner[0] if owner else -1, bool(arg.required))
+        tabs.append(t)
+        mros.append([idx[k] for k in W.classes[i].__mro__ if k in idx] + [BASE])
+    return tabs, mros
+
+
+def lib_line(impl, classes, lin):
+    return {"op": "lib", "impl": impl, "lin": lin,
+            "classes": [{"bases": cls_parents(c), "mro": [x for x in c["mro"] if x != BASE],
+                         "own": [{"name": a["name"], "ty": a["ty"], "default": a["default"] is not None, "generator": a["generator"],
+                                  "constant": a["constant"]} for a in c["own"]]} for c in classes]}
+
+
+_LIN = {}
+
+
+def probe_lin(ctx):
+    """which linearisation the argument table of the tree under test follows (`Lin` of Model/ValidateMro.lean): read off the
+    witness hierarchy of C15-N5, where the two differ"""
+    if "lin" not in _LIN:
+        classes, defaults, W, mros = make_lib(ctx, None, json.loads(json.dumps(N5_CLASSES)), {})
+        tabs, _ = real_tables(classes, W)
+        _LIN["lin"] = "mro" if tabs[3].get("count", (None,))[0] == 2 else "dfs"
+        ctx.extra_cov["argument_table_linearisation_probed"] = _LIN["lin"]
+    return _LIN["lin"]
+
+
+def check_tables(ctx, classes, defaults, W, source="generated", with_model=True):
+    """the argument table of every class of a library: model (`argTable` along the probed linearisation) vs the real
+    `xpmtype.arguments`; monitor (implementation only): the declaration in force for a name is the one of the first class of
+    Python's MRO that declares it — when it is not, assignments that the MRO-first declaration forbids are tried for real"""
+    impl = probe_impl(ctx)
+    lin = probe_lin(ctx)
+    tabs, rmros = real_tables(classes, W)
+    case = {"op": "lib", "classes": [{k: c[k] for k in ("name", "base", "parent", "parents", "own", "args", "mro", "hook") if k in c} for c in classes],
+            "defaults": defaults}
+    for i, c in enumerate(classes):
+        if rmros[i] != c["mro"]:
+            raise RuntimeError(f"harness: C3 linearisation {c['mro']} differs from Python's {rmros[i]} for {c['name']}")
+    multi = any(len(cls_parents(c)) > 1 for c in classes)
+    redecl = sum(1 for c in classes for a in c["own"] if any(a["name"] == x for p in cls_parents(c) for x, _, _ in lib_table(classes, classes[p]["mro"], None)))
+    ctx.count("lib_shape", ("multiple-inheritance" if multi else "single-inheritance") + ("+redeclared" if redecl else ""))
+    mlist = [len(cls_parents(c)) > 1 for c in classes]
+    ctx.count("classes_with_several_bases", sum(mlist))
+    mros = {i: c["mro"] for i, c in enumerate(classes)}
+    for i, c in enumerate(classes):
+        declared = {x: (o, d) for x, o, d in lib_table(classes, c["mro"], None)}
+        dfs = dict(lib_owners(classes, i, "dfs"))
+        for x, (o_d, d) in sorted(declared.items()):
+            o_r, req_r = tabs[i].get(x, (-1, None))
+            if o_r == o_d:
+                continue
+            which = "depth-first" if o_r == dfs.get(x) else "other-order"
+            ctx.count("table_owner_differs_from_mro", which)
+            inner = d["ty"]["t"] if d["ty"]["k"] == "opt" else d["ty"]
+            for vd in (D_float(1.5), D_int(3), D_str("x"), {"k": "bool", "b": True}, NONE):
+                w = W.fresh()
+                try:
+                    o = W.classes[i](**{x: build(vd, w)})
+                    stored = canon(o.__xpm__.values.get(x), w)
+                except Exception:
+                    continue
+                sub = dict(case, cls=i, name=x, v=vd, declared_by=classes[o_d]["name"], table_uses=classes[o_r]["name"] if o_r >= 0 else None)
+                if stored["k"] == "none":
+                    if vd["k"] == "none" and required(d) and not d["generator"]:
+                        ctx.monitor_fail(f"inherited-declaration:{which}",
+                                         f"{c['name']}.{x} is declared required by {classes[o_d]['name']} (first in the MRO of {c['name']}); "
+                                         f"assigning None is accepted (the argument table uses the declaration of {sub['table_uses']})", sub)
+                elif not member(inner, stored, mros):
+                    ctx.monitor_fail(f"inherited-declaration:{which}",
+                                     f"{c['name']}.{x} is declared {render_ty(d['ty'], {j: k['name'] for j, k in enumerate(classes)})} by "
+                                     f"{classes[o_d]['name']} (first in the MRO of {c['name']}); {vd} is stored as {stored} "
+                                     f"(the argument table uses the declaration of {sub['table_uses']})", sub)
+    ctx.case(case, multi or redecl > 0)
+    if with_model:
+        impl_out = {"tables": [sorted([x, o, r] for x, (o, r) in t.items()) for t in tabs]}
+        _QUEUE.append(("lib", lib_line(impl, classes, lin), impl_out, {"case": case}))
+
+
+def compare_lib(ctx, line, m, i, meta):
+    mm = {"tables": [sorted(t) for t in m.get("tables", [])]}
+    if mm != i:
+        bad = [k for k, (a, b) in enumerate(zip(mm["tables"], i["tables"])) if a != b]
+        ctx.disagree(meta["case"], {k: mm["tables"][k] for k in bad[:3]}, {k: i["tables"][k] for k in bad[:3]},
+                     f"argument table (name, declaring class, required) along the {line['lin']} linearisation: model and xpmtype.arguments differ")
+
+
+def gen_table_lib(rng):
+    """small hierarchies of configuration classes with scalar parameters, many re-declarations, any shape of multiple
+    inheritance (also those on which depth-first and MRO disagree: known finding C15-N5)"""
+    n = rng.choice([4, 5, 6])
+    classes = []
+    for i in range(n):
+        cand = list(range(i))
+        parents = []
+        if cand and rng.random() < 0.8:
+            parents = rng.sample(cand, min(len(cand), rng.choice([1, 1, 2, 2, 3])))
+            parents = [q for q in parents if not any(q != r and q in classes[r]["mro"] for r in parents)]
+        mro = c3_mro(i, parents, classes)
+        while mro is None:
+            parents = parents[:-1]
+            mro = c3_mro(i, parents, classes)
+        own = []
+        names = [f"p{k}" for k in range(4)]
+        for x in rng.sample(names, rng.choice([0, 1, 1, 2])):
+            ty = T(rng.choice(["int", "float", "str", "bool"]))
+            a = {"name": x, "ty": ty, "meta": False, "default": None, "generator": False, "constant": False, "dkey": f"{x}@{i}"}
+            f = rng.random()
+            if any(b["name"] == x and b["default"] is not None for q in classes for b in q["own"]):
+                a["default"] = "conforming"   # see gen_lib: a default declared above is inherited as a class attribute
+            elif f < 0.3:
+                a["ty"] = T("opt", t=ty)
+            elif f < 0.5:
+                a["default"] = "conforming"
+            own.append(a)
+        cl = {"name": f"G{i}", "base": "Config", "parent": parents[0] if parents else None, "parents": parents, "mro": mro, "own": own, "deco": False}
+        cl["args"] = [d for _, _, d in lib_table(classes + [cl], mro, None)]
+        classes.append(cl)
+    return classes
+
+
+def run_table_cases(ctx, rng, n, with_model=True):
+    for _ in range(n):
+        classes, defaults, W, mros = make_lib(ctx, rng, gen_table_lib(rng))
+        check_tables(ctx, classes, defaults, W, with_model=with_model)
+
+
+def _n5_arg(name, ty, cls):
+    return {"name": name, "ty": ty, "meta": False, "default": None, "generator": False, "constant": False, "dkey": f"{name}@{cls}"}
+
+
+# C15-N5: Base(count: float, seed: Optional[int]); Fixed(Base) inherits; Logged(Base) re-declares count: str, seed: int;
+# C(Fixed, Logged) — Python's MRO is C, Fixed, Logged, Base; the nested ChainMaps reach Base through Fixed first
+N5_CLASSES = [
+    {"name": "G0", "base": "Config", "parent": None, "parents": [], "mro": [0, BASE], "deco": False,
+     "own": [_n5_arg("count", T("float"), 0), _n5_arg("seed", T("opt", t=T("int")), 0)]},
+    {"name": "G1", "base": "Config", "parent": 0, "parents": [0], "mro": [1, 0, BASE], "deco": False, "own": []},
+    {"name": "G2", "base": "Config", "parent": 0, "parents": [0], "mro": [2, 0, BASE], "deco": False,
+     "own": [_n5_arg("count", T("str"), 2), _n5_arg("seed", T("int"), 2)]},
+    {"name": "G3", "base": "Config", "parent": 1, "parents": [1, 2], "mro": [3, 1, 2, 0, BASE], "deco": False, "own": []},
+]
+for _c in N5_CLASSES:
+    _c["args"] = [d for _, _, d in lib_table(N5_CLASSES, _c["mro"], None)]
+N5_CASE = {"kind": "lib", "classes": N5_CLASSES, "defaults": {}}
 
 
 # ---------------------------------------------------------------------------
@@ -1781,6 +2145,7 @@ def hist_line(impl, classes, h, mros):
             "classes": [[{"ty": a["ty"], "default": a["default"] is not None, "generator": a["generator"], "constant": a["constant"]}
                          for a in c["args"]] for c in classes],
             "tasks": [i for i, c in enumerate(classes) if c["base"] == "Task"],
+            "hooks": [[i, eh[0], eh[1]] for i in range(len(classes)) for eh in [eff_hook(classes, i)] if eh],
             "nodes": [{"cls": nd["cls"], "vals": [None] * len(nd["vals"]), "pre": nd["pre"], "init": nd["init"]} for nd in h["nodes"]],
             "ops": [o if o["o"] == "submit" else {"o": "assign", "n": o["n"], "k": o["k"], "v": with_mro(o["v"], mros)} for o in h["ops"]]}
 
@@ -1790,7 +2155,7 @@ def run_history_case(ctx, classes, defaults, W, mros, h, lines, impls, metas):
     at every submit of the history"""
     from experimaestro import experiment
     impl = probe_impl(ctx)
-    case = {"op": "history", "classes": [{k: c[k] for k in ("name", "base", "parent", "args", "mro")} for c in classes], "defaults": defaults,
+    case = {"op": "history", "classes": [{k: c[k] for k in ("name", "base", "parent", "parents", "own", "args", "mro", "hook") if k in c} for c in classes], "defaults": defaults,
             "nodes": h["nodes"], "ops": h["ops"], "removed": h.get("removed", []), "root": h.get("root", 0)}
     w = W.fresh()
     nodes = h["nodes"]
@@ -1847,7 +2212,9 @@ def run_history_case(ctx, classes, defaults, W, mros, h, lines, impls, metas):
                                          f"step {i}: submit of node {op['n']} ({classes[nodes[op['n']]['cls']]['name']}) is {out} and the registry goes "
                                          f"{before} -> {after} although node {miss[0]} ({classes[nodes[miss[0]]['cls']]['name']}), reachable from it, "
                                          f"misses a required value; history: {describe_ops(h['ops'][: i + 1], classes, nodes)}", prefix)
-                    if not miss and out == "rejected-missing" and not had_job:
+                    hooked = [m for m in reachable(cur, classes, True) if eff_hook(classes, nodes[m]["cls"])]
+                    ctx.count("history_submit_hooks", "a reachable class has a hook" if hooked else "none")
+                    if not miss and out == "rejected-missing" and not had_job and not hooked:
                         ctx.monitor_fail("history-submit-rejects-complete",
                                          f"step {i}: submit of node {op['n']} raises ValueError although no reachable node misses a required value "
                                          f"(a value completed between two attempts must be seen); history: {describe_ops(h['ops'][: i + 1], classes, nodes)}", prefix)
@@ -1911,6 +2278,7 @@ def compare_history(ctx, line, m, steps, meta):
 def run_histories(ctx, rng, nlibs, per_lib, with_model=True):
     for _ in range(nlibs):
         classes, defaults, W, mros = make_lib(ctx, rng, gen_lib(rng, hist=True))
+        check_tables(ctx, classes, defaults, W, with_model=with_model)
         lines, impls, metas = [], [], []
         for _ in range(per_lib):
             h = gen_history(rng, classes, mros, complete=rng.random() < 0.25)
@@ -1975,7 +2343,25 @@ def skipjob_case(kind="path", position="direct"):
             "removed": [[1, 0, 1]], "root": 0}
 
 
-CORPUS = [F10_CASE, N1_CASE, N2_CASE, f11_case(True, "list"), f11_case(False, "list"), f11_case(True, "dict"), n3_case()] + \
+def _scalar_case(ty, v, choices=None):
+    arg = {"ty": T(ty), "default": None, "generator": False, "constant": False}
+    if choices:
+        arg["choices"] = choices
+    return {"kind": "set", "arg": arg, "v": v}
+
+
+# the boundaries of the scalar validators (each entry of the tables that translate/typesrc.py reads), always run
+SCALAR_CORPUS = [_scalar_case("int", D_float(x)) for x in (-2.5, 2.5, -0.5, -3.0, 1e300, math.inf, -math.inf, math.nan, -0.0)] + \
+    [_scalar_case("int", v) for v in (D_str("3"), {"k": "bool", "b": True}, NONE, D_list([D_int(1)]))] + \
+    [_scalar_case("float", v) for v in (D_str("1.5"), D_int(2**1024), D_int(3), {"k": "bool", "b": True}, D_float(math.nan))] + \
+    [_scalar_case("str", v) for v in (D_int(1), D_path("a"), D_str(""))] + \
+    [_scalar_case("bool", v) for v in (D_int(0), D_str(""), D_str("x"), D_list([]))] + \
+    [_scalar_case("path", v) for v in (D_str("a//b/./c"), D_path("/x"), D_int(1), D_dict([(K_str("$type"), D_str("path")), (K_str("$value"), D_str("p/q"))]),
+                                       D_dict([(K_str("$value"), D_str("p/q"))]), D_dict([(K_str("a"), D_int(1))]))] + \
+    [_scalar_case("int", v, [D_int(1), D_int(2)]) for v in (D_int(2), D_int(5), D_float(2.0), D_str("a"))] + \
+    [_scalar_case("str", v, [D_str("a"), D_str("b")]) for v in (D_str("a"), D_str("c"))]
+
+CORPUS = SCALAR_CORPUS + [N5_CASE, F10_CASE, N1_CASE, N2_CASE, f11_case(True, "list"), f11_case(False, "list"), f11_case(True, "dict"), n3_case()] + \
     [skipjob_case(k, pos) for k in ("path", "meta") for pos in ("direct", "list", "dict")]
 
 
@@ -1996,6 +2382,10 @@ def run_case_list(ctx, cases, with_model=True):
             run_history_case(ctx, classes, defaults, W, mros, c, lines, impls, metas)
             if with_model:
                 _QUEUE.extend(("history", l, i, m) for l, i, m in zip(lines, impls, metas))
+    for c in cases:
+        if c["kind"] == "lib":
+            classes, defaults, W, mros = make_lib(ctx, None, c["classes"], c.get("defaults", {}))
+            check_tables(ctx, classes, defaults, W, source="corpus", with_model=with_model)
     for c in cases:
         if c["kind"] != "graph":
             continue
@@ -2046,7 +2436,8 @@ def correspond(ctx):
         done += k
     run_decl_cases(ctx, rng, ctx.scale(40, 400))
     t1 = time.time()
-    nlibs, per = ctx.scale((14, 18), (110, 22))
+    run_table_cases(ctx, rng, ctx.scale(10, 250))
+    nlibs, per = ctx.scale((11, 16), (110, 22))
     run_graphs(ctx, rng, nlibs, per)
     t2 = time.time()
     nlibs, per = ctx.scale((8, 12), (60, 15))
@@ -2065,6 +2456,7 @@ def search(ctx):
     known = {f["key"] for f in common.load_findings(PROP) if f.get("status") == "known"}
     while time.time() - t0 < budget and not [m for m in ctx.monitor_failures if m["key"] not in known]:
         run_set_cases(ctx, gen_set_cases(ctx, rng, 150), with_model=False)
+        run_table_cases(ctx, rng, 10, with_model=False)
         run_graphs(ctx, rng, 3, 15, with_model=False)
         run_histories(ctx, rng, 3, 10, with_model=False)
 
@@ -2085,6 +2477,8 @@ def replay(ctx, obj):
         elif c.get("op") == "history":
             cases.append({"kind": "history", "classes": c["classes"], "defaults": c.get("defaults", {}), "nodes": c["nodes"], "ops": c["ops"],
                           "removed": c.get("removed", []), "root": c.get("root", 0)})
+        elif c.get("op") == "lib":
+            cases.append({"kind": "lib", "classes": c["classes"], "defaults": c.get("defaults", {})})
         elif c.get("op") == "graph":
             cases.append({"kind": "graph", "classes": c["classes"], "defaults": c.get("defaults", {}), "nodes": c["nodes"], "root": c["root"],
                           "removed": c.get("removed", []), "resubmit": c.get("resubmit", False)})
